@@ -114,7 +114,8 @@ EXPORT errno_t _strcmp_s_chk(const char *dest, rsize_t dmax, const char *src,
             return RCNEGATE(ESUNTERM);
         }
     }
-    *resultp = *dest - *src;
+    if (dmax) /* compare as unsigned char, like strcmp; nothing is left to compare when dmax is used up */
+        *resultp = (unsigned char)*dest - (unsigned char)*src;
     return RCNEGATE(EOK);
 }
 #ifdef __KERNEL__
